@@ -233,6 +233,11 @@ impl<'builder> Builder<'builder> {
                     return Err(InitStage::ValidateKeyLengths.into());
                 }
                 (*s_dh).set(k);
+                // A key the DH implementation cannot use (e.g. an out-of-range P-256 scalar)
+                // yields no full-length public key.
+                if s_dh.pubkey().len() != s_dh.pub_len() {
+                    return Err(InitStage::ValidateKeyLengths.into());
+                }
                 Toggle::on(s_dh)
             },
             None => Toggle::off(s_dh),
